@@ -108,12 +108,15 @@ def run(tier, seed):
     procs = []
     import concurrent.futures as cf
 
-    def one(p):
+    def one(pf):
+        p, fl = pf
         src = '\n'.join(p)
-        r = subprocess.run([build.PY, child, src, bat], env=env, capture_output=True, text=True, timeout=120, cwd=tmp)
-        return p, r
+        r = subprocess.run([build.PY] + fl + [child, src, bat], env=env, capture_output=True, text=True, timeout=120, cwd=tmp)
+        return (p if not fl else p + ['# interpreter flags: ' + ' '.join(fl)]), r
+    # the same programs under other interpreter configurations: assertions / docstrings stripped, warnings as errors
+    cfgs = [(p, []) for p in progs] + [(p, fl) for p in progs if len(p) == 1 for fl in (['-O'], ['-OO'], ['-W', 'error'], ['-X', 'dev'])]
     with cf.ThreadPoolExecutor(16) as ex:
-        outs = list(ex.map(one, progs))
+        outs = list(ex.map(one, cfgs))
     ref = None
     for p, r in outs:
         ck.count(('program', len(p), p[0]))
